@@ -8,6 +8,7 @@ import (
 	"errors"
 	"fmt"
 	"log/slog"
+	"runtime"
 	"sort"
 	"strings"
 	"sync"
@@ -47,8 +48,9 @@ func TestMain(m *testing.M) {
 			"naming p, wrong domain, wrong payload type, corrupted, garbage, oversized, >500 addresses), every field present, absent or repeated over 1..12 chunks, plus garbage, oversized "+
 			"and truncated chunks; replies may be delayed around the identify timeout, dribbled, stalled, reset, or fail protocol negotiation. "+
 			"Oracle: the reference model is built by construction from the generator (address classes, record validity, key ownership); see the test comments. "+
-			"NON-TRIVIAL = a consumed message carried material of another peer or exceeded a cap, or a delivery ended at or after the close of its connection / of the last connection, "+
-			"or an identify-wait had to be released through a failure path. DISTINCT = distinct (step kinds, connection, delays, message structure) history.",
+			"NON-TRIVIAL = a consumed message carried material of another peer (key, record, /p2p suffix) or exceeded a cap, or a delivery ended at or after the close of its "+
+			"connection, or a connection was closed in the middle of a consumption (scheduling point inside the peerstore). DISTINCT = distinct (step kinds, connection, delays, "+
+			"message structure) history. FuzzIdentifyStream (seed corpus in the quick tier, coverage-guided campaign in the thorough tier): non-trivial = the bytes were consumed as a message.",
 		"multiaddr parsing is trusted to be injective on the generated templates; address classes are assigned by construction and cross-checked against manet in TestAddressTemplates",
 		"the peerstore is pstoremem (optionally with a key book that trusts its caller, which the KeyBook interface permits, and with a protocol book large enough not to mask identify's own cap)",
 		"same-instant events race under the Go scheduler; the oracle accepts every order of them",
@@ -68,9 +70,10 @@ const (
 	stClose
 	stSleep
 	stWait
+	stArmClose // the connection closes in the middle of the next address update made while connected
 )
 
-var stepNames = []string{"open", "push", "close", "sleep", "wait"}
+var stepNames = []string{"open", "push", "close", "sleep", "wait", "close-inside-next-consumption"}
 
 const (
 	negoOK = iota
@@ -182,7 +185,8 @@ func drawScenario(rt *rapid.T) *scenario {
 	sc.longSleep = []time.Duration{16 * time.Minute, time.Hour, 48 * time.Hour}[rapid.IntRange(0, 2).Draw(rt, "longSleep")]
 	T := sc.timeout
 	n := rapid.IntRange(1, 10).Draw(rt, "nsteps")
-	status := []int{} // 1 open, 2 closed
+	status := []int{} // 1 open, 2 closed (or closing at an instant the generator does not know)
+	armed := false
 	pushes := map[int]int{}
 	src := 0
 	for i := 0; i < n; i++ {
@@ -208,6 +212,9 @@ func drawScenario(rt *rapid.T) *scenario {
 		}
 		if i > 0 && len(all) > 0 {
 			choices = append(choices, stWait)
+		}
+		if len(open) > 0 && !armed {
+			choices = append(choices, stArmClose)
 		}
 		if len(choices) == 0 {
 			break
@@ -249,6 +256,12 @@ func drawScenario(rt *rapid.T) *scenario {
 			st.d = []time.Duration{time.Millisecond, time.Second, T, T + time.Millisecond, 2 * time.Minute, 16 * time.Minute}[rapid.IntRange(0, 5).Draw(rt, label+"-d")]
 		case stWait:
 			st.conn = all[rapid.IntRange(0, len(all)-1).Draw(rt, label+"-conn")]
+		case stArmClose:
+			c := open[rapid.IntRange(0, len(open)-1).Draw(rt, label+"-conn")]
+			st.conn = c
+			status[c] = 2
+			armed = true
+			st.resetStreams = rapid.Bool().Draw(rt, label+"-resetStreams")
 		}
 		sc.steps = append(sc.steps, st)
 	}
@@ -263,7 +276,7 @@ func (sc *scenario) fingerprint() string {
 		switch st.kind {
 		case stOpen:
 			fmt.Fprintf(&b, "%d/%v/%v/%d/%v", st.remoteClass, st.limited, st.lateConnected, st.newStream, st.nsDelay)
-		case stClose:
+		case stClose, stArmClose:
 			fmt.Fprintf(&b, "%v/%v", st.notifyDelay, st.resetStreams)
 		case stSleep:
 			fmt.Fprintf(&b, "%v", st.d)
@@ -284,7 +297,7 @@ func (sc *scenario) describe() map[string]any {
 		switch st.kind {
 		case stOpen:
 			s += fmt.Sprintf(" remote=%s limited=%v lateConnected=%v newStream=%d/%v", remoteClassNames[st.remoteClass], st.limited, st.lateConnected, st.newStream, st.nsDelay)
-		case stClose:
+		case stClose, stArmClose:
 			s += fmt.Sprintf(" notifyDelay=%v resetStreams=%v", st.notifyDelay, st.resetStreams)
 		case stSleep:
 			s += fmt.Sprintf(" d=%v", st.d)
@@ -349,8 +362,11 @@ type runner struct {
 	// reference model
 	allowed     map[string]struct{} // store forms that some delivery so far may have put under p
 	protos      map[string]struct{}
+	usableRec   map[string]struct{}
 	quietFrom   time.Duration // no harness-driven activity after this instant (as scheduled so far)
-	lastZero    time.Duration // last instant a close left p without a connection (<0: never)
+	armedConn   *connState    // connection that closes inside the next connected address update
+	armedReset  bool
+	firedAt     time.Duration // when that happened (<0: not yet); guarded by emu
 	pendingNote int           // Disconnected notifications not delivered yet
 	waits       []waitRec
 	before      map[peer.ID]string
@@ -464,6 +480,9 @@ func (r *runner) noteDelivery(cs *connState, d *delivery, startsAt time.Duration
 		for p := range d.msg.protos {
 			r.protos[p] = struct{}{}
 		}
+		for _, b := range d.msg.usableRec {
+			r.usableRec[b] = struct{}{}
+		}
 	}
 	r.active(startsAt + d.span())
 }
@@ -571,9 +590,6 @@ func (r *runner) doClose(st *step) {
 	now := r.now()
 	cs.closedAt = now
 	r.h.net.shut(cs.fc, st.resetStreams)
-	if r.openCount() == 0 {
-		r.lastZero = now
-	}
 	r.active(now + st.notifyDelay)
 	if st.notifyDelay == 0 {
 		r.h.net.notifyDisconnected(cs.fc)
@@ -604,6 +620,78 @@ func (r *runner) doWait(st *step) {
 	r.waits = append(r.waits, waitRec{r.ids.IdentifyWait(cs.fc), dl, fmt.Sprintf("IdentifyWait(conn %d) at %v", st.conn, now)})
 }
 
+// lastZero is the last instant at which a close left p without any connection that was
+// opened strictly earlier and closes strictly later (<0: never). Connections opened at
+// that very instant do not count: their order relative to the close is not known here.
+func (r *runner) lastZero() time.Duration {
+	last := time.Duration(-1)
+	for _, x := range r.conns {
+		t := x.closedAt
+		if t < 0 || t <= last {
+			continue
+		}
+		spanning := false
+		for _, c := range r.conns {
+			if c.openedAt < t && (c.closedAt < 0 || c.closedAt > t) {
+				spanning = true
+				break
+			}
+		}
+		if !spanning {
+			last = t
+		}
+	}
+	return last
+}
+
+// doArmClose makes the given connection close (Disconnected delivered at once, from
+// another goroutine) at the moment identify, having found the peer connected, is about
+// to store addresses with the connected lifetime. The interleaving is legal: a
+// connection may die at any time and the peerstore may be slow.
+func (r *runner) doArmClose(st *step) {
+	cs := r.conns[st.conn]
+	r.armedConn, r.armedReset = cs, st.resetStreams
+	reset := st.resetStreams
+	r.ps.arm(func() {
+		r.emu.Lock()
+		r.firedAt = time.Since(r.t0)
+		r.emu.Unlock()
+		done := make(chan struct{})
+		go func() {
+			defer close(done)
+			r.h.net.shut(cs.fc, reset)
+			r.h.net.notifyDisconnected(cs.fc)
+		}()
+		// let the notification run until it finishes or blocks behind identify's own lock
+		for i := 0; i < 3000; i++ {
+			select {
+			case <-done:
+				return
+			default:
+				runtime.Gosched()
+			}
+		}
+	})
+}
+
+// reconcile brings the model up to date with a close that happened inside a consumption.
+func (r *runner) reconcile() {
+	if r.armedConn == nil {
+		return
+	}
+	r.emu.Lock()
+	at := r.firedAt
+	r.emu.Unlock()
+	if at < 0 {
+		return
+	}
+	r.armedConn.closedAt = at
+	r.armedConn.notified = true
+	r.armedConn = nil
+	r.raced = true
+	r.label("closed-inside-consumption")
+}
+
 func (r *runner) snapshotEvents() []evRec {
 	r.emu.Lock()
 	defer r.emu.Unlock()
@@ -622,6 +710,7 @@ func (r *runner) addrSet() map[string]ma.Multiaddr {
 // certainly happened while a connection to p existed, and p has not been without a
 // connection since. Then every address stored for p was stored "while connected".
 func (r *runner) surelyConnected() bool {
+	r.reconcile()
 	if r.openCount() == 0 || r.now() < r.quietFrom {
 		return false
 	}
@@ -638,7 +727,7 @@ func (r *runner) surelyConnected() bool {
 			tE = e.t
 		}
 	}
-	if tE < 0 || r.lastZero > tE {
+	if tE < 0 || r.lastZero() > tE {
 		return false
 	}
 	for _, e := range evs {
@@ -661,6 +750,7 @@ func (r *runner) surelyConnected() bool {
 
 // check evaluates the invariants at a quiescent point.
 func (r *runner) check(where string) {
+	r.reconcile()
 	rt, p := r.rt, r.w.p.ID
 	now := r.now()
 	// 1. nothing is attributed to another peer
@@ -704,9 +794,12 @@ func (r *runner) check(where string) {
 			rt.Fatalf("%s: protocol %q stored for the remote peer was never advertised by it", where, pr)
 		}
 	}
-	// 5. identify does not certify anything: no signed record may appear for p
+	// 5. a signed record kept for p (this version keeps none) must be one that validates, is signed by and names p
 	if e := r.ps.GetPeerRecord(p); e != nil {
-		rt.Fatalf("%s: a signed peer record appeared in the certified address book for the remote peer", where)
+		b, _ := e.Marshal()
+		if _, ok := r.usableRec[string(b)]; !ok {
+			rt.Fatalf("%s: a signed peer record that the peer did not validly sign for itself is kept for it in the certified address book", where)
+		}
 	}
 	// 6. events name the authenticated peer
 	for _, e := range r.snapshotEvents() {
@@ -871,7 +964,10 @@ func (r *runner) run() {
 	for i := range sc.steps {
 		st := &sc.steps[i]
 		where := fmt.Sprintf("after step %d (%s conn %d)", i, stepNames[st.kind], st.conn)
+		r.reconcile()
 		switch st.kind {
+		case stArmClose:
+			r.doArmClose(st)
 		case stOpen:
 			r.doOpen(st)
 		case stPush:
@@ -923,6 +1019,10 @@ func (r *runner) run() {
 	}
 	time.Sleep(eps)
 	synctest.Wait()
+	r.ps.arm(nil)
+	synctest.Wait()
+	r.reconcile()
+	r.armedConn = nil
 	r.check("after the last scheduled event")
 	if r.openCount() > 0 {
 		r.sleepChecked(sc.longSleep, fmt.Sprintf("after %v with a connection open", sc.longSleep))
@@ -1012,10 +1112,10 @@ func (r *runner) run() {
 
 func TestIdentifyAttribution(t *testing.T) {
 	name := t.Name()
-	hx.Check(t, 4000, 300000, 0, func(rt *rapid.T) {
+	hx.Check(t, 4000, 200000, 0, func(rt *rapid.T) {
 		sc := drawScenario(rt)
-		r := &runner{t: t, rt: rt, sc: sc, w: sc.w, T: sc.timeout, allowed: map[string]struct{}{}, protos: map[string]struct{}{},
-			lastZero: -1, labels: map[string]struct{}{}}
+		r := &runner{t: t, rt: rt, sc: sc, w: sc.w, T: sc.timeout, allowed: map[string]struct{}{}, protos: map[string]struct{}{}, usableRec: map[string]struct{}{},
+			firedAt: -1, labels: map[string]struct{}{}}
 		hx.Bubble(t, rt, r.run)
 
 		// race position: a delivery that ends at or after the close of its connection
@@ -1072,7 +1172,7 @@ func TestIdentifyAttribution(t *testing.T) {
 			labels = append(labels, "wait-released-by-failure")
 		}
 		sort.Strings(labels)
-		nontrivial := r.consumedInteresting || r.raced || r.failurePath
+		nontrivial := r.consumedInteresting || r.raced
 		stats.Case(name, sc.fingerprint(), nontrivial, labels...)
 		if stats.WantSample(name) {
 			stats.Sample(name, sc.describe())
